@@ -625,6 +625,11 @@ func (t *Table) Update(input *types.UpdateItemInput) (map[string]*types.Item, er
 		return nil, err
 	}
 
+	// the key attributes identify the item: an update cannot remove them
+	if _, err := t.KeySchema.GetKey(t.AttributesDef, item); err != nil {
+		return nil, types.NewError("ValidationException", "one or more parameter values were invalid: cannot remove an attribute that is part of the key", nil)
+	}
+
 	if err := t.validateIndexKeys(item); err != nil {
 		return nil, types.NewError("ValidationException", err.Error(), nil)
 	}
